@@ -98,6 +98,22 @@ def gen_simp(ns, r, exprs, mode):
                 ch = r.choice(n.data)
                 t = refmodel.to_nested(ch)
                 rep = ch
+            elif c < 0.5:
+                # a subtree from elsewhere in the input (variable
+                # elimination, merged ddmin subsets): it may carry, or
+                # contain a node that carries, another pending identity key -
+                # the copy inserted here is still "inserted as given"
+                other, _ = r.choice(nodes)
+                t = refmodel.to_nested(other)
+                rep = other
+                info['replacement_from_input'] = True
+            elif c < 0.6 and avoid_keys:
+                # contains (but is not) the structural key of the same
+                # simplification: inserted as given, not rewritten
+                k = avoid_keys[0]
+                t = r.choice([['f', k], [k, k], ['g', ['h', k], '1']])
+                info['id_replacement_contains_structural_key'] = True
+                return B(t), t
             else:
                 t = rand_tree(r, r.randint(0, 3), bud())
                 rep = B(t)
@@ -189,6 +205,10 @@ def check_case(ns, res, exprs, substs, id_map, struct, fresh, mode, info,
     """Apply with the real code and with the model, compare."""
     res.count('evaluations')
     res.count(f'mode_{mode}')
+    for k in ('replacement_from_input',
+              'id_replacement_contains_structural_key'):
+        if info.get(k):
+            res.count('cases_' + k)
     before = refmodel.snapshot(exprs)
     nnodes = ns.nodes.count_nodes(exprs)
     want, hits, untouched = refmodel.substitute(exprs, id_map, struct)
